@@ -67,7 +67,8 @@ impl<'c, KD: Kind, const N: usize> MapEng<'c, KD, N> {
                 let real_len = slot.c.m.len();
                 let qo = KD::qo(k);
                 let really_present = tl::quiet(|| slot.c.m.contains_key(KD::q(&qo))).unwrap_or(false);
-                if !((real_len < N && !full) || (really_present && present.is_some())) {
+                let within_contract = if liar { real_len < N } else { (real_len < N && !full) || (really_present && present.is_some()) };
+                if !within_contract {
                     variant = OP_INSERT;
                 } else {
                     cx.bump(S::unchecked_inserts);
@@ -80,7 +81,8 @@ impl<'c, KD: Kind, const N: usize> MapEng<'c, KD, N> {
                     }
                 }
             }
-            let owner = if variant == OP_INSERT_UNCHECKED { PS::of(Prop::C18) } else { P01 };
+            // (under a lying == the model's answers are not binding: only the standing memory-safety checks count)
+            let owner = if liar { PS::NONE } else if variant == OP_INSERT_UNCHECKED { PS::of(Prop::C18) } else { P01 };
             let key = KD::key(k);
             let kid = KD::kid(&key);
             let val = KD::val(v);
